@@ -83,6 +83,23 @@ def _build_c09(inputs):
                 f.write(head + 'FILE "data.bin" BINARY\n  TRACK 01 MODE1/2352\n    INDEX 01 00:00:00\n'
                         f'  TRACK 02 AUDIO\n    INDEX 01 {mm:02d}:{ss:02d}:{ff:02d}\n')
             paths["cue->2352+audio"] = os.path.join(d3, "img.cue")
+            # the FILE entry names the image through a sub-directory; a decoy with the same base name lies next to the sheet
+            d4 = w.sub("cue_subdir")
+            os.makedirs(os.path.join(d4, "images"))
+            with open(os.path.join(d4, "images", "data.bin"), "wb") as f:
+                f.write(raw)
+            with open(os.path.join(d4, "data.bin"), "wb") as f:
+                f.write(bytes(4096))
+            with open(os.path.join(d4, "img.cue"), "w") as f:
+                f.write(head + 'FILE "images/data.bin" BINARY\n  TRACK 01 MODE1/2048\n    INDEX 01 00:00:00\n')
+            paths["cue->subdir/raw"] = os.path.join(d4, "img.cue")
+            # an unrelated all-audio sheet opened earlier in the same process must not leak into the later ones
+            d5 = w.sub("other_disc")
+            with open(os.path.join(d5, "audio.bin"), "wb") as f:
+                f.write(bytes(2352 * 4))
+            with open(os.path.join(d5, "other.cue"), "w") as f:
+                f.write('FILE "audio.bin" BINARY\n  TRACK 01 AUDIO\n    INDEX 01 00:00:00\n  TRACK 02 AUDIO\n    INDEX 01 00:00:02\n')
+            L.do_ls(os.path.join(d5, "other.cue"), "")
             for name, p in paths.items():
                 out = w.sub("out_" + name.replace(">", "").replace("-", "_"))
                 stdout, err = L.do_export(p, out)
@@ -615,6 +632,9 @@ def _build_c04(inputs):
             files.append(f)
         if inputs.get("stereo"):
             files += [_sample("ST -L", 33, 1), _sample("ST -R", 35, 2)]
+        if inputs.get("stereo") == "very-unequal":
+            # halves that differ by far more than one transcoder block; and a pair with one empty half
+            files += [_sample("BIG -L", 10000, 3), _sample("BIG -R", 100, 4), _sample("NIL -L", 50, 5), _sample("NIL -R", 50, 6, start=20, end=20)]
         model = expand_akai({"partitions": [{"volumes": [_vol("V", files)]}]})
         raw = L.aw.build_akai_image(model)
         with L.Workdir() as w:
@@ -670,6 +690,7 @@ def _small_c04(tier, seed, shard=(0, 1)):
                                              for _ in range(rnd.randint(0, 8))]} for _ in range(10)], "stereo": True})
     cases.append({"headers": [{"words": 10}, {"words": 0}, {"words": 33, "loops": [{"at": 5, "fine": 0, "coarse": 2, "duration": 9999}], "loop_type": 0}],
                   "stereo": True, "into_used_directory": True})
+    cases.append({"headers": [{"words": 40}, {"words": 1}, {"words": 0}], "stereo": "very-unequal"})
     for k, c in enumerate(cases):
         if k % shard[1] == shard[0]:
             yield c
@@ -1004,7 +1025,13 @@ def _build_c20p(inputs):
                     continue
                 parsed = pw.parse_ls_output(o)
                 exp = pw.expected_listing(prog, name, inputs.get("ptype", 0xF0))
-                out.append({"name": name, "truncated": bool(parsed.get("truncated")), "diff": pw.compare_listing(exp, parsed["tree"])[:6],
+                diff = pw.compare_listing(exp, parsed["tree"])
+                if any(None in z for (_sl, zs) in [inputs["programs"][int(name.split()[-1])]] for z in zs):
+                    # zone slots with gaps: the per-zone ARRAYS outside the zone blocks (key tracking, aux out, sample-start velocity) are
+                    # paired with the listed zones by position - which of the two pairings is "stored order" the statement does not say
+                    # (it names sample name and velocity range for zones); they are left out of the comparison here
+                    diff = [d for d in diff if not any(a in d for a in ("enable_key_tracking", "aux_out_offset", "velocity_to_sample_start"))]
+                out.append({"name": name, "truncated": bool(parsed.get("truncated")), "diff": diff[:6],
                             "not_found": "was not found" in o})
         return out
     return {"call": run, "env": {}}
@@ -1035,6 +1062,9 @@ def _small_c20p(tier, seed, shard=(0, 1)):
         cases.append({"programs": [[list(perm), [[names[3]], [], [names[0], names[1], names[2], names[3]]]]], "decoys": True})
     cases.append({"programs": [[[0], [[names[0]]]], [[2], [[names[1], names[2]]]], [[1, 0], [[], [names[3]]]]], "decoys": True})
     cases.append({"programs": [[[1, 0, 2], [[names[0]], [names[1]], [names[2]]]]], "decoys": False, "ptype": 0x70})
+    # zone slots that are not filled front to back
+    cases.append({"programs": [[[0, 1], [[names[0], None, names[1], None], [None, names[2]]]]], "decoys": False})
+    cases.append({"programs": [[[0], [[None, None, None, names[3]]]]], "decoys": True})
     for _ in range(4 if tier == "quick" else 60):
         nk = rnd.randint(1, 3)
         slots = rnd.sample(range(0, 5), nk)
